@@ -63,6 +63,16 @@ def gen_c18(tier, rng):
                     s2 = bytearray(suf); s2[pos] ^= 0x10
                     cases.append(f"ispre x={hexs(h)} y={hexs(bytes(p2))} ax={pos % 8} ay={nn % 8}")
                     cases.append(f"issuf x={hexs(h)} y={hexs(bytes(s2))} ax={pos % 8} ay={nn % 8}")
+    # aliasing operands: both slices are views of ONE buffer (same start and different lengths, empty views,
+    # overlapping windows of a periodic buffer, the buffer against itself)  (seeded change C18-b)
+    for n in (0, 1, 2, 3, 4, 5, 7, 8, 9, 16, 17, 33):
+        for buf in (base(n, 5), bytes([0x61]) * n, (b"ab" * n)[:n]):
+            for off in sorted(set([0, 1, 2, n // 2, n - 1, n])):
+                for yl in sorted(set([0, 1, 2, n - off, n - off - 1, (n - off) // 2])):
+                    if 0 <= off <= n and 0 <= yl <= n - off:
+                        y = buf[off:off + yl]
+                        for op in ("iseq", "ispre", "issuf"):
+                            cases.append(f"{op} x={hexs(buf)} y={hexs(y)} al={off} ax={(n + off) % 8}")
     # seeded random
     nrand = 300 if tier == "quick" else 5000
     for _ in range(nrand):
@@ -264,6 +274,24 @@ def gen_memchr(op, tier, rng, backends=BACKENDS_X86):
             for _ in range(max(1, n // dens)):
                 h[rng.randrange(n)] = rng.choice(ns)
         cases.append(f"{op} be={be}{cpu} ns={hexs(bytes(ns))} a={rng.randrange(4096)} h={hexs(bytes(h))}")
+    # bit-trick neighbours: fillers that differ from a needle in one bit / by one (borrow and carry chains of the
+    # SWAR zero-byte test, sign bits of the vector compares), few or no real matches, every short length
+    lens2 = list(range(0, 41)) + [47, 48, 63, 64, 65, 100, 129]
+    for j, n in enumerate(lens2 * (1 if quick else 8)):
+        ar = 1 if op == "count" else 1 + (j % 3)
+        nb = rng.choice([0x30, 0x0a, 0x00, 0x80, 0xff, 0x61, 0x7f, 0x01])
+        ns = [nb, nb ^ 0x55, (nb + 7) & 0xff][:ar]
+        if j % 5 == 0 and ar > 1:
+            ns[-1] = ns[0]                                  # repeated needle bytes
+        near = [b for x in ns for b in (x ^ 1, x ^ 0x80, (x + 1) & 0xff, (x - 1) & 0xff, x ^ 0xff) if b not in ns] or [0x78]
+        h = bytearray(rng.choice(near) for _ in range(n))
+        if n and j % 3:
+            for _ in range(1 + (j % 2)):
+                h[rng.randrange(n)] = rng.choice(ns)
+        for be0 in backends:
+            be = be0.split(":")[0]
+            cpu = (" cpu=" + be0.split(":")[1]) if ":" in be0 else ""
+            cases.append(f"{op} be={be}{cpu} ns={hexs(bytes(ns))} a={rng.randrange(64)} h={hexs(bytes(h))}")
     return cases
 
 def oracle_memchr(op, kv, res, trace, flags):
@@ -300,7 +328,24 @@ def gen_c07(tier, rng):
         nm = (n + dens - 1) // dens
         pre = "".join(rng.choice("NB") for _ in range(rng.randrange(0, min(nm, 25) + 1)))
         extra.append(f"iter be={be}{cpu} ns=61 a={rng.randrange(64)} h={hexs(h)} ops={pre}C{rng.choice(['', 'NC', 'BC', 'NBC'])}")
-    return gen_memchr("count", tier, rng) + its + extra
+    # bit-trick neighbours: haystacks over {n, n^1, n^0x80, n+1, n-1, 0x00, 0xff} at every short length and around
+    # the word / vector sizes, on every backend (word-at-a-time counting is exact as a zero-byte TEST but not per byte:
+    # seeded changes C07-b, C09-a)
+    near = []
+    lens = list(range(0, 41)) + [47, 48, 63, 64, 65, 100]
+    for j, n in enumerate(lens * (2 if tier == "quick" else 12)):
+        nb = rng.choice([0x30, 0x0a, 0x00, 0x80, 0xff, 0x61, 0x7f])
+        alpha = [nb, nb ^ 1, nb ^ 0x80, (nb + 1) & 0xff, (nb - 1) & 0xff, 0x00, 0xff]
+        w = rng.choice([[5, 5, 1, 1, 1, 0, 0], [3, 3, 3, 1, 1, 1, 1], [1, 8, 1, 0, 0, 0, 0], [1, 1, 8, 0, 0, 1, 1]])
+        h = bytes(rng.choices(alpha, weights=w)[0] for _ in range(n))
+        for be0 in BACKENDS_X86:
+            be = be0.split(":")[0]
+            cpu = (" cpu=" + be0.split(":")[1]) if ":" in be0 else ""
+            near.append(f"count be={be}{cpu} ns={nb:02x} a={rng.randrange(64)} h={hexs(h)}")
+        if n >= 2:
+            pre = "".join(rng.choice("NB") for _ in range(rng.randrange(0, 4)))
+            near.append(f"iter be={BACKENDS_X86[j % len(BACKENDS_X86)].split(':')[0]} ns={nb:02x} a={rng.randrange(64)} h={hexs(h)} ops={pre}C")
+    return gen_memchr("count", tier, rng) + its + extra + near
 
 def oracle_c07(op, kv, res, trace, flags):
     return oracle_iter(op, kv, res, trace, flags) if op == "iter" else oracle_memchr(op, kv, res, trace, flags)
@@ -761,6 +806,23 @@ def substring_pairs(rng, quick, rev=False):
             pairs.append((x, h))
             if rng.random() < 0.3:
                 pairs.append((x, b"z" * 50 + h if rng.random() < 0.5 else h + b"z" * 50))
+    # periodic continuations: every binary needle up to 7 bytes (8 thorough) in haystacks that continue its period to the
+    # right (and to the left, for the reverse searchers) for j more bytes and then break it: occurrences exactly one
+    # period apart next to a near-match, which is where a wrong shift / wrong period class jumps over a real occurrence
+    # (seeded change C04-b: needles whose period lies between len/2 and the critical position)
+    for x in words(b"ab", 7 if quick else 8, 2):
+        n = len(x)
+        per = next(q for q in range(1, n + 1) if all(x[i] == x[i + q] for i in range(n - q)))
+        right = (x[:per] * (n + 12))          # x continued periodically to the right
+        left = (x[n - per:] * (n + 12))       # ... and to the left (ends with x)
+        js = sorted(set([0, 1, per - 1, per, per + 1, 2 * per])) if quick else range(0, 2 * per + 2)
+        for j in js:
+            for c in (b"#", bytes([x[0] ^ 3])):
+                pairs.append((x, b"#" * 17 + right[:n + j] + c + b"#" * 5))
+                pairs.append((x, b"#" * 5 + c + left[len(left) - n - j:] + b"#" * 17))
+                if not quick or j == per:
+                    pairs.append((x, b"#" * 70 + right[:n + j] + c * 3))
+                    pairs.append((x, c * 3 + left[len(left) - n - j:] + b"#" * 70))
     sm = stale_memory_pairs(rng, quick)
     pairs += sm[::5] if quick else sm
     if not quick:
@@ -807,6 +869,14 @@ def gen_mm(tier, rng, fwd=True, configs=True):
     cases = []
     pairs = substring_pairs(rng, quick)
     k = 0
+    # the needle is a view into the haystack itself (aliasing operands)
+    for hb in (b"abcabcabd" * 3, bytes(range(1, 90)), b"a" * 70, (b"ab" * 40 + b"c") * 2):
+        for off in (0, 1, 5, len(hb) // 2, len(hb) - 3):
+            for n in (0, 1, 2, 3, 8, 33, len(hb) - off):
+                if 0 <= off and off + n <= len(hb):
+                    for f in (("top", "find") if fwd else ("rtop", "rfind")):
+                        extra = " cfg=auto rank=default" if f == "find" else ""
+                        cases.append(f"mm f={f}{extra} x={hexs(hb[off:off + n])} h={hexs(hb)} al={off} a={off % 64}")
     for (x, h) in pairs:
         k += 1
         a = (k * 7) % 64
@@ -1125,7 +1195,7 @@ def gen_c16(tier, rng):
     quick = tier == "quick"
     cases = []
     needles = [b"", b"a", b"ab", b"aba", b"foo", bytes(range(1, 20)), b"xy" + b"z" * 40, b"ab" * 20 + b"c", bytes(range(1, 41))]
-    n_hist = 40 if quick else 400
+    n_hist = 400 if quick else 6000
     k = 0
     for x in needles:
         junk = ((x[:2] or b"q") + b"q") * 70
@@ -1137,6 +1207,8 @@ def gen_c16(tier, rng):
             junk,                                      # exhausts, no match
             b"",                                       # empty haystack
             x[:-1] if x else b"z",                     # shorter than the needle
+            (x[:1] or b"a") + b"bc",                   # 3 bytes: iterators are exhausted after a few calls
+            x[:1] or b"a",                             # 1 byte
         ]
         hshex = ",".join(hexs(h) for h in hs)
         fixed = [
@@ -1150,6 +1222,15 @@ def gen_c16(tier, rng):
             "J3,M,L,M,V,M,M,M,M,M,M",
             "O,I3,N,N,J3,M,M,D,F0,N,M",
             "I4,N,N,S,K,N",
+            # conversions of EXHAUSTED iterators (short haystacks; the empty needle matches len+1 times), then keep calling
+            "J7,M,M,M,M,V,M,M",
+            "J7,M,M,M,M,M,L,M,V,M",
+            "I7,N,N,N,N,W,N,S,N",
+            "I7,N,N,N,N,N,K,N,S,W,N",
+            "J8,M,M,V,M,L,M",
+            "I8,N,N,W,N,S,K,N",
+            "J5,M,V,M,M",
+            "I5,N,W,N,N",
         ]
         for ops in fixed:
             for cfg in (("auto", "none") if not quick else ("auto",)):
@@ -1157,7 +1238,7 @@ def gen_c16(tier, rng):
                 cases.append(f"hist cfg={cfg} rank={RANKS_MM[k % len(RANKS_MM)]}{cpus} x={hexs(x)} hs={hshex} ops={ops}")
                 k += 1
         for _ in range(n_hist // len(needles) + 1):
-            L = rng.randrange(3, 13)
+            L = rng.randrange(3, 17)
             ops = []
             have_it = have_rit = False
             for _ in range(L):
